@@ -600,8 +600,15 @@ def api_c_entity(e1, e2, ctx):
 # ------------------------------------------------------------------ C13 through the pipeline --
 GSTMTS = ["CREATE TABLE t1 (a int);", "CREATE SEQUENCE q START 1;", "CREATE TYPE ty AS ENUM ('a');", "CREATE DOMAIN d AS varchar(3);", "CREATE SCHEMA sc;",
           "CREATE DATABASE db;", "CREATE TABLESPACE ts;", "SET x = 1;", "SET ANSI_NULLS ON;", "SET hive.exec.parallel;", "SET y 2 ;", "DROP TABLE old;",
-          "CREATE TABLE t2 (b int); -- note", "GO"]
+          "CREATE TABLE t2 (b int); -- note", "GO",
+          # entities that carry a clause naming another kind of object
+          "CREATE DATABASE db2 TABLESPACE ts2;", "CREATE SCHEMA sc2 TABLESPACE ts3;", "CREATE TABLE t3 (c int) TABLESPACE ts4;", "CREATE DATABASE db3 COMMENT 'x';"]
+# the bucket the statement's entity belongs to: decided by the statement, not by the keys of what came out
+GKINDS = ["tables", "sequences", "types", "domains", "schemas", "databases", "tablespaces", "ddl_properties", "ddl_properties", "ddl_properties", "ddl_properties",
+          "tables", "tables", None, "databases", "schemas", "tables", "databases"]
 NG = len(GSTMTS)
+assert len(GKINDS) == NG
+GRP_BUCKETS = ["tables", "types", "sequences", "domains", "schemas", "ddl_properties", "tablespaces", "databases"]
 
 
 def _regroup_ok(flat, grouped) -> bool:
@@ -625,29 +632,45 @@ def _regroup_ok(flat, grouped) -> bool:
     return grouped.get("comments", []) == comments
 
 
+def _kinds_ok(grouped, gs) -> bool:
+    """every bucket holds as many entities as the script has statements of that kind (each statement yields one)"""
+    for b in GRP_BUCKETS:
+        want = len([g for g in gs if GKINDS[g] == b])
+        if len(grouped.get(b, [])) != want:
+            return False
+    return True
+
+
 def c_group_pipe(g1: int, g2: int, g3: int) -> bool:
     """
     C13 end to end: three catalogued statements (entity kinds, four SET spellings, DROP TABLE, a
-    commented table, a skipped line - symbolic indices): every entity of the flat result is in
-    exactly one bucket of the grouped result, unchanged, order kept; comments gathered.
+    commented table, a skipped line, entities carrying a TABLESPACE / COMMENT clause - symbolic
+    indices): every entity of the flat result is in exactly one bucket of the grouped result,
+    unchanged, order kept; each bucket holds exactly the entities of the statements of its kind;
+    comments gathered.
 
     pre: 0 <= g1 < NG and 0 <= g2 < NG and 0 <= g3 < NG
     pre: g1 != g2 and g2 != g3 and g1 != g3
     pre: G1 < 0 or g1 == G1
+    pre: GQUICK == 0 or (g2 in GQUICK_SET and g3 in GQUICK_SET)
     post: _
     """
     text = "\n".join([GSTMTS[g1], GSTMTS[g2], GSTMTS[g3], ""])
-    return _regroup_ok(run(text), run(text, group_by_type=True))
+    grouped = run(text, group_by_type=True)
+    return _regroup_ok(run(text), grouped) and _kinds_ok(grouped, (g1, g2, g3))
 
 
 G1 = env_int("VF_G1", -1)
+GQUICK = env_int("VF_GQUICK", 0)
+GQUICK_SET = (0, 1, 4, 5, 6, 7, 9, 11, 12, 14, 15, 16)
 
 
 def api_c_group_pipe(g1, g2, g3):
     from simple_ddl_parser import DDLParser
     text = "\n".join([GSTMTS[g1], GSTMTS[g2], GSTMTS[g3], ""])
     flat, grouped = DDLParser(text).run(), DDLParser(text).run(group_by_type=True)
-    return {"ddl": text, "flat": flat, "grouped": grouped, "reproduced": not _regroup_ok(flat, grouped)}
+    return {"ddl": text, "flat": flat, "grouped": grouped, "expected_bucket_of_each_statement": [GKINDS[g] for g in (g1, g2, g3)],
+            "reproduced": not (_regroup_ok(flat, grouped) and _kinds_ok(grouped, (g1, g2, g3)))}
 
 
 # ------------------------------------------------------------------ C05 statement-level case ---
